@@ -44,6 +44,7 @@ type ccCase struct {
 	Race       bool     `json:"race,omitempty"`     // C19: listener installed, Wait/SaveCache/Close/hybrid operations enabled
 	Hybrid     bool     `json:"hybrid,omitempty"`
 	LoadStorm  bool     `json:"load_storm,omitempty"`
+	CancelCtx  bool     `json:"cancel_ctx,omitempty"`  // a fifth of the loading Gets pass a context that is already cancelled (the cache hands it to the loader and otherwise ignores it)
 	RaiseProcs bool     `json:"raise_procs,omitempty"` // GOMAXPROCS is doubled for the case, after package init (locks built then have more reader slots than the process started with)
 	CostYield  int      `json:"cost_yield,omitempty"` // > 0: the store has a cost function that takes about 2 us per unit (yielding) and returns 1; loads pass cost 0
 	PanicEvery int      `json:"panic_every,omitempty"` // C19: the loader panics on every n-th invocation (callers recover)
@@ -218,6 +219,12 @@ func (r *ccRun) doOp(g int, op ccOp) {
 		rec.Kind = "lget"
 		r.gets[g]++
 		ctx := context.WithValue(context.Background(), ccCtxKey{}, &rec)
+		if r.c.CancelCtx && (op.K+op.Pert+len(r.recs[g]))%5 == 4 {
+			// a Get is a Get whatever its context: counted, answered, loaded (seeded C16h)
+			var cancel context.CancelFunc
+			ctx, cancel = context.WithCancel(ctx)
+			cancel()
+		}
 		rec.Call = r.stamp.Add(1)
 		var v int64
 		var err error
@@ -662,6 +669,7 @@ func execConc(c ccCase, x *verifkit.Ctx, lin, counters bool) (fail *verifkit.Fai
 	x.ClassIf(overlapWrites, "read-overlapping-write")
 	x.ClassIf(c.Loading, "loading")
 	x.ClassIf(c.LoadStorm, "load-storm")
+	x.ClassIf(c.CancelCtx, "loading-gets-with-cancelled-context")
 	x.ClassIf(c.CostYield > 0, "load-storm-with-slow-cost-function")
 	x.ClassIf(c.Pool, "entry-pool")
 	x.ClassIf(c.Doorkeeper, "doorkeeper")
@@ -821,6 +829,7 @@ func genConc(forCounters bool) func(t *rapid.T) ccCase {
 			}
 		}
 		c.StallUs = rapid.SliceOfN(rapid.SampledFrom([]int{0, 20, 200, 1000}), 0, 4).Draw(t, "stalls")
+		c.CancelCtx = c.Loading && rapid.IntRange(0, 2).Draw(t, "cancelCtx") == 0
 		return c
 	}
 }
